@@ -1,11 +1,6 @@
-\* mode M, executable documents: every viable token prefix up to 6 tokens
-CONSTANT Alphabet <- AlphaExec
-CONSTANT MaxToks = 6
-CONSTANT MaxDefs = 2
-CONSTANT Start = "Doc"
-CONSTANT Sigma = {}
-CONSTANT MaxLen = 0
-CONSTANT First = {}
+\* mode M: every viable token prefix of the runs RunsM (executable <=6 tokens, type system <=5, variable definitions, values)
+CONSTANT Runs <- RunsM
+CONSTANT LRuns = {}
 INIT GInit
 NEXT GNext
 INVARIANT BracketsBalanced
